@@ -86,7 +86,7 @@ class Lock:
 def coq_build(cfg, log):
     """returns (ok, message).  Builds exactly the .vo targets the property needs."""
     with Lock("coq.lock"):
-        rc, out = sh(["make", "-s", "-C", V, "consts", "coqproject"], timeout=600)
+        rc, out = sh(["make", "-s", "-C", V, "consts", "coqproject", "REPO=" + REPO], timeout=600)
         log.append(out)
         if rc != 0:
             return False, "constgen/coqproject failed:\n" + out[-3000:]
@@ -191,7 +191,17 @@ def build_harness(cfg, pid, log):
             pass
         os.makedirs(os.path.join(WORK, "bin"), exist_ok=True)
         exe = os.path.join(WORK, "bin", pid.lower())
-        rc, out = sh(["go", "build", "-tags", "verif", "-o", exe, "./cmd/" + pid.lower()], cwd=hd, timeout=900)
+        modargs = []
+        if os.path.realpath(REPO) != "/repo":
+            # a scratch copy of the repository (VERIF_REPO): same module, different replace target
+            md = os.path.join(WORK, "gomod-" + hashlib.sha1(REPO.encode()).hexdigest()[:10])
+            os.makedirs(md, exist_ok=True)
+            gm = open(os.path.join(hd, "go.mod")).read().replace("=> /repo", "=> " + os.path.realpath(REPO))
+            open(os.path.join(md, "go.mod"), "w").write(gm)
+            open(os.path.join(md, "go.sum"), "w").write(open(os.path.join(hd, "go.sum")).read())
+            modargs = ["-modfile=" + os.path.join(md, "go.mod")]
+            exe += "-scratch"
+        rc, out = sh(["go", "build"] + modargs + ["-tags", "verif", "-o", exe, "./cmd/" + pid.lower()], cwd=hd, timeout=900)
         log.append(out)
         if rc != 0:
             return None, out
